@@ -1,12 +1,23 @@
 #!/usr/bin/env python3
 """C02 / C04 — identity propagation and forwarding fidelity (specs/dataplane/Pipeline*.tla, TracePipeline.tla; harness proxyh, real HTTP)."""
-import json, os, sys, time, shutil, random, urllib.parse
+import json, os, re, sys, time, shutil, random, urllib.parse
 sys.path.insert(0, os.path.join(os.path.dirname(os.path.abspath(__file__)), ".."))
 import vlib
 from vlib import Infra
 
 HOP = {"connection", "keep-alive", "proxy-authenticate", "proxy-authorization", "te", "trailer", "trailers", "transfer-encoding", "upgrade", "proxy-connection"}
 ADDED_OK = {"cache-control", "date", "content-length", "content-type", "transfer-encoding", "connection", "x-content-type-options", "vary"}
+
+
+def expand_unicode(x):
+    """"<u:XXXX>" in the specification's strings -> the code point (TLA+ sources stay ASCII)"""
+    if isinstance(x, str):
+        return re.sub(r"<u:([0-9a-fA-F]{4})>", lambda m: chr(int(m.group(1), 16)), x)
+    if isinstance(x, list):
+        return [expand_unicode(v) for v in x]
+    if isinstance(x, dict):
+        return {expand_unicode(k): expand_unicode(v) for k, v in x.items()}
+    return x
 
 
 def clusters(catch_all=False):
@@ -58,18 +69,23 @@ def request_for(rid, c, rng):
         headers.append([hn("Impersonate-Extra-") + esc_key(k), v])
     for o in c["impOther"]:
         headers.append([hn(o), "1234"])
-    tok = "tok-" + {"alice": "alice", "system:serviceaccount:ns1:sa1": "sa", }.get(c["id"]["user"], "special")
+    tok = tok_of(c["id"]["user"])
     if c["authn"] == "bad":
         tok = "no-such-token"
     return {"k": "req", "id": rid, "host": host, "method": rng.choice(["GET", "POST", "DELETE"]) if res == "pods" else "GET", "path": "/api/v1/namespaces/d/" + res,
             "headers": headers, "token": tok, "resp": {"status": 200, "bodySize": 5}}
 
 
+def tok_of(user):
+    import hashlib
+    return "tok-" + {"alice": "alice", "system:serviceaccount:ns1:sa1": "sa"}.get(user, "u" + hashlib.sha1(user.encode()).hexdigest()[:8])
+
+
 def tokens(cases):
     t = {}
     for x in cases:
         idn = x["c"]["id"]
-        name = "tok-" + {"alice": "alice", "system:serviceaccount:ns1:sa1": "sa"}.get(idn["user"], "special")
+        name = tok_of(idn["user"])
         extra = {}
         for k, v in idn["extras"]:
             extra.setdefault(k, []).append(v)
@@ -232,13 +248,15 @@ def run(prop, tier, replay):
         gen = vlib.tlc("dataplane", "PipelineGen", "PipelineGen.cfg", workers=8, timeout=900)
         if gen.violation:
             raise Infra("PipelineGen sanity violated: %s" % gen.violated())
-        cases = gen.json_prints("CASE")
+        cases = expand_unicode(gen.json_prints("CASE"))
         ident = [c for c in cases if c["c"]["rule"] == "match" and c["c"]["flow"] == "free" and c["c"]["ep"] == "ready" and c["c"]["host"] in ("known", "alias") and c["c"]["authn"] == "ok"]
         outc = [c for c in cases if c not in ident] if prop == "C04" else []
         use = ident if prop == "C02" else outc + ident[::9]
         rng.shuffle(use)
         if tier == "quick":
             items = [c for c in use if c["c"]["imp"]["extras"] and len(c["c"]["imp"]["extras"]) >= 2 and c["c"]["authz"]["userextras"] == "allow" and c["c"]["impOther"] == []] if prop == "C02" else []
+            # every authenticated identity forwarded as itself (no impersonation requested) is always part of the sample
+            items += [c for c in use if c not in items and c["c"]["imp"]["kind"] == "none" and not c["c"]["imp"]["groups"] and not c["c"]["imp"]["extras"]] if prop == "C02" else []
             rest = [c for c in use if c not in items]
             use = items + rest[:(1500 if prop == "C02" else 900) - len(items)]
         if replay:
